@@ -31,9 +31,51 @@ func (d echoDialer) DialMCContext(ctx context.Context, addr string) (*mcnet.Conn
 }
 
 func botEcho(c *vm.Ctx, r *vm.Rand) {
-	n := r.Range(200, 3000)
-	threshold := []int{-1, 0, 64}[r.Intn(3)]
-	channelQueues := r.Bool()
+	botEchoSession(c, r.Uint64(), r.Range(200, 3000), []int{-1, 0, 64}[r.Intn(3)], r.Bool(), 1)
+}
+
+// botEchoThresholds: no compression; everything compressed (0, 3); only the keep-alives (8 data bytes) compressed and
+// the pings (4 data bytes) not (6, 8); compression agreed but never used (9, 64, 256).
+var botEchoThresholds = []int{-1, 0, 3, 6, 8, 9, 64, 256}
+
+// botEchoParallel: k bots alive at the same time, each with a server, a connection, queues, reader and writer
+// goroutines and a compression threshold of its own - they have the packet buffer pool and the zlib writer pool in
+// common and nothing else. Every session is judged exactly as a lone one is: each answer carries the bytes of the
+// packet it answers.
+func botEchoParallel(c *vm.Ctx, r *vm.Rand) {
+	k := r.Range(4, 8)
+	first := r.Intn(len(botEchoThresholds))
+	type params struct {
+		seed          uint64
+		n, threshold  int
+		channelQueues bool
+	}
+	ps := make([]params, k)
+	for i := range ps {
+		ps[i] = params{r.Uint64(), r.Range(100, 600), botEchoThresholds[(first+i)%len(botEchoThresholds)], r.Bool()}
+	}
+	oks := make([]bool, k)
+	var wg sync.WaitGroup
+	for i := range ps {
+		wg.Add(1)
+		go func(i int) {
+			defer wg.Done()
+			oks[i] = botEchoSession(c, ps[i].seed, ps[i].n, ps[i].threshold, ps[i].channelQueues, k)
+		}(i)
+	}
+	wg.Wait()
+	for _, ok := range oks {
+		if !ok {
+			return
+		}
+	}
+	c.Cover("bot-echo.parallel-sessions-exact")
+}
+
+// botEchoSession runs one bot against one scripted server; alongside is the number of sessions alive at the same
+// time (this one included). It reports whether every answer was exact.
+func botEchoSession(c *vm.Ctx, seed uint64, n, threshold int, channelQueues bool, alongside int) bool {
+	r := vm.NewRand(seed)
 	type sent struct {
 		ping bool
 		val  uint64
@@ -123,7 +165,7 @@ func botEcho(c *vm.Ctx, r *vm.Rand) {
 		opts.QueueWrite = queue.NewChannelQueue[pk.Packet](8192)
 	}
 	wit := func() any {
-		return map[string]any{"packets": n, "threshold": threshold, "channel_queues": channelQueues}
+		return map[string]any{"script_seed": seed, "packets": n, "threshold": threshold, "channel_queues": channelQueues, "sessions_alive_at_once": alongside}
 	}
 	c.Inflight(fmt.Sprintf("bot echo %v", wit()))
 	var joinErr error
@@ -141,28 +183,32 @@ func botEcho(c *vm.Ctx, r *vm.Rand) {
 	case <-serverDone:
 	case <-time.After(60 * time.Second):
 		c.Inconclusive("bot echo session did not finish in 60 s")
-		return
+		return false
 	}
 	cl.Close()
 	<-gameDone
-	c.EvalN(int64(n), vm.HashStr("bot-echo", fmt.Sprint(n, threshold, channelQueues, r.Uint64())), true)
+	c.EvalN(int64(n), vm.HashStr("bot-echo", fmt.Sprint(n, threshold, channelQueues, alongside, seed)), true)
 	if joinErr != nil {
 		c.Violation("bot-echo/join-failed", "the bot could not join the scripted server: "+joinErr.Error(), wit())
-		return
+		return false
 	}
 	mu.Lock()
 	defer mu.Unlock()
 	if len(answers) != n {
 		c.Violation("bot-echo/answer-count", fmt.Sprintf("%d keep-alive/ping packets were sent, %d answers came back", n, len(answers)), wit())
-		return
+		return false
 	}
 	for i := range script {
 		if answers[i] != script[i] {
 			w := wit().(map[string]any)
 			w["index"], w["sent"], w["answered"] = i, fmt.Sprintf("%+v", script[i]), fmt.Sprintf("%+v", answers[i])
 			c.Violation("bot-echo/answer-carries-other-bytes", fmt.Sprintf("answer %d carries %#x (ping=%v), the packet it answers carried %#x (ping=%v)", i, answers[i].val, answers[i].ping, script[i].val, script[i].ping), w)
-			return
+			return false
 		}
 	}
 	c.Cover("bot-echo.answers-exact")
+	if alongside > 1 {
+		c.Cover(fmt.Sprintf("bot-echo.parallel.threshold=%d", threshold))
+	}
+	return true
 }
